@@ -657,3 +657,73 @@ Definition apply_tev (fuel : nat) (t : trun) (e : Z * tev) : trun :=
 Definition run_timed (fuel : nat) (ttl tmo : Z) (script : list (Z * fres)) (evs : list (Z * tev))
            (horizon : Z) : trun :=
   advance_to fuel horizon (fold_left (apply_tev fuel) evs (mkT (kinit ttl tmo 0) script None [])).
+
+(* ================================================================================================ *)
+(** * Part 4: the poll task of a ServiceCheck (__subscribe__ / __unsubscribe__ / _poll)
+
+   Watch subscribers come and go at any instant, also in adjacent loop iterations: the last one leaves
+   (its __unsubscribe__ cancels the poll task and is suspended in `await task`) while the next one
+   subscribes.  Only the bookkeeping is modelled here; what a poll task does is `KCall` of part 3 every
+   check_ttl. *)
+
+Record pstate := mkP {
+  p_events : nat;                     (* len(self._events): subscribed watchers *)
+  p_poll : option nat;                (* self._poll_task (a task id) *)
+  p_live : list (nat * bool);         (* poll tasks not finished yet, with "cancel requested" *)
+  p_next : nat;                       (* next fresh task id *)
+  p_waiting : list nat;               (* __unsubscribe__ calls suspended in `await task` *)
+  p_err : bool                        (* the assert in __unsubscribe__ failed *)
+}.
+
+Definition pinit : pstate := mkP O None [] O [] false.
+
+Inductive pop :=
+| PSub                      (* a Watch call runs `await check.__subscribe__()` *)
+| PUnsub                    (* a subscribed Watch call runs `await check.__unsubscribe__(event)` up to its await *)
+| PTaskEnd (t : nat)        (* a cancelled poll task runs and ends *)
+| PUnsubResume (t : nat).   (* the __unsubscribe__ that awaited task t continues *)
+
+Definition mark_cancel (t : nat) (l : list (nat * bool)) : list (nat * bool) :=
+  map (fun e : nat * bool => if Nat.eqb (fst e) t then (fst e, true) else e) l.
+
+Definition is_live (t : nat) (l : list (nat * bool)) : bool := existsb (fun e : nat * bool => Nat.eqb (fst e) t) l.
+
+Definition pstep (s : pstate) (op : pop) : pstate :=
+  match op with
+  | PSub =>
+    let start := if subscribe_starts_poll_when_none
+                 then match p_poll s with None => true | Some _ => false end else false in
+    if start then
+      mkP (S (p_events s)) (Some (p_next s)) (p_live s ++ [(p_next s, false)]) (S (p_next s))
+          (p_waiting s) (p_err s)
+    else mkP (S (p_events s)) (p_poll s) (p_live s) (p_next s) (p_waiting s) (p_err s)
+  | PUnsub =>
+    match p_events s with
+    | O => s
+    | S O =>
+      match p_poll s with
+      | None => mkP O None (p_live s) (p_next s) (p_waiting s) true          (* AssertionError *)
+      | Some t =>
+        mkP O (if poll_cleared_before_await then None else Some t) (mark_cancel t (p_live s)) (p_next s)
+            (p_waiting s ++ [t]) (p_err s)
+      end
+    | S n => mkP n (p_poll s) (p_live s) (p_next s) (p_waiting s) (p_err s)
+    end
+  | PTaskEnd t =>
+    mkP (p_events s) (p_poll s)
+        (filter (fun e : nat * bool => negb (Nat.eqb (fst e) t && snd e)) (p_live s)) (p_next s) (p_waiting s) (p_err s)
+  | PUnsubResume t =>
+    if nat_mem t (p_waiting s) && negb (is_live t (p_live s)) then
+      mkP (p_events s) (if poll_cleared_before_await then p_poll s else None) (p_live s) (p_next s)
+          (filter (fun x => negb (Nat.eqb x t)) (p_waiting s)) (p_err s)
+    else s
+  end.
+
+Definition prun (s : pstate) (ops : list pop) : pstate := fold_left pstep ops s.
+
+(* run everything that is pending: cancelled poll tasks end, suspended unsubscribes continue *)
+Definition psettle (s : pstate) : pstate :=
+  let s1 := fold_left (fun a (e : nat * bool) => if snd e then pstep a (PTaskEnd (fst e)) else a) (p_live s) s in
+  fold_left (fun a t => pstep a (PUnsubResume t)) (p_waiting s1) s1.
+
+Definition live_pollers (s : pstate) : nat := length (p_live s).
